@@ -46,18 +46,19 @@ Proof. intros. rewrite !N.mod_small in H1 by assumption. exact H1. Qed.
 Section Facts.
 
 Variable H : chunk -> chunk -> chunk.
+Variable Z : nat -> chunk.
 Hypothesis H_inj : forall a b c d, H a b = H c d -> a = c /\ b = d.
 
 (* ------------------------------------------------------------------ chunk counts *)
 
-Lemma put_bytes_len1 : forall x cs, 0 < length x -> put_bytes H x = Some cs -> length cs = 1.
+Lemma put_bytes_len1 : forall x cs, 0 < length x -> put_bytes H Z x = Some cs -> length cs = 1.
 Proof.
   unfold put_bytes. intros x cs P E. destruct (length x <=? 32) eqn:L.
   - apply Nat.leb_le in L. rewrite chunks_of_short in E by lia. inversion E. reflexivity.
-  - destruct (merkleize H (chunks_of x) 0); inversion E. reflexivity.
+  - destruct (merkleize H Z (chunks_of x) 0); inversion E. reflexivity.
 Qed.
 
-Lemma put_bytes_n_len1 : forall x n cs, 0 < n -> put_bytes_n H x n = Some cs -> length cs = 1.
+Lemma put_bytes_n_len1 : forall x n cs, 0 < n -> put_bytes_n H Z x n = Some cs -> length cs = 1.
 Proof.
   unfold put_bytes_n. intros x n cs P E. destruct (length x <=? n) eqn:L; [|discriminate].
   apply Nat.leb_le in L. eapply put_bytes_len1; [|exact E]. rewrite left_pad_length; lia.
@@ -67,7 +68,7 @@ Lemma opt1_len : forall r cs, opt1 r = Some cs -> length cs = 1.
 Proof. intros r cs E. apply opt1_inv in E. destruct E as [c [_ ->]]. reflexivity. Qed.
 
 Lemma arity_sound : forall p e cs k,
-  arity p = Some k -> dom p e = true -> interp H p e = Some cs -> length cs = k.
+  arity p = Some k -> dom p e = true -> interp H Z p e = Some cs -> length cs = k.
 Proof.
   intros p e cs k A D E. destruct p; simpl in A, E; try discriminate;
     try (inversion A; subst; inversion E; reflexivity).
@@ -96,13 +97,13 @@ Qed.
 
 Lemma seq_len : forall ps e cs,
   forallb has_arity ps = true -> forallb (fun q => dom q e) ps = true ->
-  seq_opt (fun q => interp H q e) ps = Some cs -> length cs = arity_sum ps.
+  seq_opt (fun q => interp H Z q e) ps = Some cs -> length cs = arity_sum ps.
 Proof.
   induction ps as [|q r IH]; simpl; intros e cs A D E.
   - inversion E. reflexivity.
   - apply andb_true_iff in A. destruct A as [A1 A2]. apply andb_true_iff in D. destruct D as [D1 D2].
-    destruct (interp H q e) as [a|] eqn:E1; [|discriminate].
-    destruct (seq_opt (fun q0 => interp H q0 e) r) as [b|] eqn:E2; [|discriminate].
+    destruct (interp H Z q e) as [a|] eqn:E1; [|discriminate].
+    destruct (seq_opt (fun q0 => interp H Z q0 e) r) as [b|] eqn:E2; [|discriminate].
     inversion E; subst. rewrite app_length.
     unfold has_arity in A1. destruct (arity q) as [k|] eqn:AQ; [|discriminate].
     erewrite (arity_sound q e a k); eauto.
@@ -111,53 +112,53 @@ Qed.
 (* ------------------------------------------------------------------ leaves *)
 
 Lemma put_bytes_n_inj : forall x y n cs, 0 < n ->
-  put_bytes_n H x n = Some cs -> put_bytes_n H y n = Some cs -> left_pad x n = left_pad y n.
+  put_bytes_n H Z x n = Some cs -> put_bytes_n H Z y n = Some cs -> left_pad x n = left_pad y n.
 Proof.
   unfold put_bytes_n. intros x y n cs P E1 E2.
   destruct (length x <=? n) eqn:L1; [|discriminate]. destruct (length y <=? n) eqn:L2; [|discriminate].
   apply Nat.leb_le in L1, L2.
-  eapply (put_bytes_inj H H_inj); [|exact E1|exact E2]. rewrite !left_pad_length; lia.
+  eapply (put_bytes_inj H Z H_inj); [|exact E1|exact E2]. rewrite !left_pad_length; lia.
 Qed.
 
 Lemma put_byte_list_inj : forall x y max cs, (N.of_nat max < two64)%N ->
-  put_byte_list H x max = Some cs -> put_byte_list H y max = Some cs -> x = y.
+  put_byte_list H Z x max = Some cs -> put_byte_list H Z y max = Some cs -> x = y.
 Proof.
   unfold put_byte_list. intros x y max cs M E1 E2.
   destruct (length x <=? max) eqn:L1; [|discriminate]. destruct (length y <=? max) eqn:L2; [|discriminate].
   apply Nat.leb_le in L1, L2.
   apply opt1_inv in E1. destruct E1 as [c1 [E1 ->]]. apply opt1_inv in E2. destruct E2 as [c2 [E2 C]].
   inversion C; subst c2.
-  destruct (mixin_inj H H_inj _ _ _ _ _ _ E1 E2) as [LN CS].
+  destruct (mixin_inj H Z H_inj _ _ _ _ _ _ E1 E2) as [LN CS].
   apply mod_small_eq in LN; try lia. apply Nat2N.inj in LN.
   apply chunks_of_inj; auto. apply CS. apply chunks_of_len; auto.
 Qed.
 
-Lemma k1_chunks_len : forall k x cs, length x = 65 * k -> k1_chunks H k x = Some cs -> length cs = k.
+Lemma k1_chunks_len : forall k x cs, length x = 65 * k -> k1_chunks H Z k x = Some cs -> length cs = k.
 Proof.
   induction k; simpl; intros x cs L E.
   - inversion E. reflexivity.
-  - destruct (put_bytes H (firstn 65 x)) as [a|] eqn:E1; [|discriminate].
-    destruct (k1_chunks H k (skipn 65 x)) as [b|] eqn:E2; [|discriminate].
+  - destruct (put_bytes H Z (firstn 65 x)) as [a|] eqn:E1; [|discriminate].
+    destruct (k1_chunks H Z k (skipn 65 x)) as [b|] eqn:E2; [|discriminate].
     inversion E; subst. rewrite app_length.
     erewrite (put_bytes_len1 (firstn 65 x) a); eauto; [|rewrite firstn_length; lia].
     erewrite IHk; eauto. rewrite skipn_length. lia.
 Qed.
 
 Lemma k1_chunks_inj : forall k x y cs, length x = 65 * k -> length y = 65 * k ->
-  k1_chunks H k x = Some cs -> k1_chunks H k y = Some cs -> x = y.
+  k1_chunks H Z k x = Some cs -> k1_chunks H Z k y = Some cs -> x = y.
 Proof.
   induction k; simpl; intros x y cs L1 L2 E1 E2.
   - destruct x; [|simpl in L1; lia]. destruct y; [reflexivity|simpl in L2; lia].
-  - destruct (put_bytes H (firstn 65 x)) as [a|] eqn:A1; [|discriminate].
-    destruct (k1_chunks H k (skipn 65 x)) as [b|] eqn:B1; [|discriminate].
-    destruct (put_bytes H (firstn 65 y)) as [a'|] eqn:A2; [|discriminate].
-    destruct (k1_chunks H k (skipn 65 y)) as [b'|] eqn:B2; [|discriminate].
+  - destruct (put_bytes H Z (firstn 65 x)) as [a|] eqn:A1; [|discriminate].
+    destruct (k1_chunks H Z k (skipn 65 x)) as [b|] eqn:B1; [|discriminate].
+    destruct (put_bytes H Z (firstn 65 y)) as [a'|] eqn:A2; [|discriminate].
+    destruct (k1_chunks H Z k (skipn 65 y)) as [b'|] eqn:B2; [|discriminate].
     inversion E1; inversion E2; subst. clear E1 E2.
     assert (LA : length a = 1) by (eapply put_bytes_len1; [|exact A1]; rewrite firstn_length; lia).
     assert (LA' : length a' = 1) by (eapply put_bytes_len1; [|exact A2]; rewrite firstn_length; lia).
     apply app_inj_len in H2; [|lia]. destruct H2; subst.
     assert (F : firstn 65 x = firstn 65 y).
-    { eapply (put_bytes_inj H H_inj); [|exact A1|exact A2]. rewrite !firstn_length. lia. }
+    { eapply (put_bytes_inj H Z H_inj); [|exact A1|exact A2]. rewrite !firstn_length. lia. }
     assert (S : skipn 65 x = skipn 65 y).
     { eapply IHk; [| |exact B1|exact B2]; rewrite skipn_length; lia. }
     rewrite <- (firstn_skipn 65 x), <- (firstn_skipn 65 y), F, S. reflexivity.
@@ -167,7 +168,7 @@ Lemma div65 : forall n, Nat.modulo n 65 = 0 -> n = 65 * Nat.div n 65.
 Proof. intros n M. pose proof (Nat.div_mod n 65). lia. Qed.
 
 Lemma put_k1_sig_list_inj : forall x y max cs, (N.of_nat max < two64)%N ->
-  put_k1_sig_list H x max = Some cs -> put_k1_sig_list H y max = Some cs -> x = y.
+  put_k1_sig_list H Z x max = Some cs -> put_k1_sig_list H Z y max = Some cs -> x = y.
 Proof.
   unfold put_k1_sig_list. intros x y max cs M E1 E2.
   destruct (Nat.eqb (Nat.modulo (length x) 65) 0) eqn:M1; [|discriminate].
@@ -176,11 +177,11 @@ Proof.
   destruct (max <? Nat.div (length x) 65) eqn:X1; [discriminate|].
   destruct (max <? Nat.div (length y) 65) eqn:X2; [discriminate|].
   apply Nat.ltb_ge in X1, X2.
-  destruct (k1_chunks H (Nat.div (length x) 65) x) as [c1|] eqn:K1; [|discriminate].
-  destruct (k1_chunks H (Nat.div (length y) 65) y) as [c2|] eqn:K2; [|discriminate].
+  destruct (k1_chunks H Z (Nat.div (length x) 65) x) as [c1|] eqn:K1; [|discriminate].
+  destruct (k1_chunks H Z (Nat.div (length y) 65) y) as [c2|] eqn:K2; [|discriminate].
   apply opt1_inv in E1. destruct E1 as [r1 [E1 ->]]. apply opt1_inv in E2. destruct E2 as [r2 [E2 C]].
   inversion C; subst r2.
-  destruct (mixin_inj H H_inj _ _ _ _ _ _ E1 E2) as [LN CS].
+  destruct (mixin_inj H Z H_inj _ _ _ _ _ _ E1 E2) as [LN CS].
   apply mod_small_eq in LN; try lia. apply Nat2N.inj in LN.
   rewrite <- LN in K2, M2.
   assert (c1 = c2).
@@ -204,7 +205,7 @@ Proof. induction l; cbn [flat_map length]; auto. rewrite app_length, le_bytes_le
 
 Lemma put_u64_array_inj : forall l1 l2 max cs,
   (N.of_nat (length l1) < two64)%N -> (N.of_nat (length l2) < two64)%N ->
-  put_u64_array H l1 max = Some cs -> put_u64_array H l2 max = Some cs ->
+  put_u64_array H Z l1 max = Some cs -> put_u64_array H Z l2 max = Some cs ->
   map (fun n => N.modulo n two64) l1 = map (fun n => N.modulo n two64) l2.
 Proof.
   unfold put_u64_array. intros l1 l2 max cs B1 B2 E1 E2.
@@ -212,15 +213,15 @@ Proof.
   inversion C; subst r2.
   (* the limits agree once the lengths agree; get the lengths first from the mixed-in number *)
   unfold mixin in E1, E2.
-  destruct (merkleize H _ (u64array_limit max (N.of_nat (length l1)))) as [m1|] eqn:M1; [|discriminate].
-  destruct (merkleize H _ (u64array_limit max (N.of_nat (length l2)))) as [m2|] eqn:M2; [|discriminate].
+  destruct (merkleize H Z _ (u64array_limit max (N.of_nat (length l1)))) as [m1|] eqn:M1; [|discriminate].
+  destruct (merkleize H Z _ (u64array_limit max (N.of_nat (length l2)))) as [m2|] eqn:M2; [|discriminate].
   inversion E1; inversion E2; subst. apply H_inj in H2. destruct H2 as [Hm Hn]. subst m2.
   apply u64chunk_inj in Hn. apply mod_small_eq in Hn; auto. apply Nat2N.inj in Hn.
   assert (Hl : length l2 = length l1) by congruence.
   rewrite Hl in M2.
   apply le_bytes8_flat_inj; auto.
   apply chunks_of_inj; [rewrite !flat_le8_len; lia|].
-  eapply (merkleize_inj H H_inj); [|exact M1|exact M2].
+  eapply (merkleize_inj H Z H_inj); [|exact M1|exact M2].
   apply chunks_of_len. rewrite !flat_le8_len. lia.
 Qed.
 
@@ -228,21 +229,21 @@ Qed.
 
 Definition inj_p (p : hprog) : Prop := forall e1 e2 cs,
   wf p = true -> dom p e1 = true -> dom p e2 = true ->
-  interp H p e1 = Some cs -> interp H p e2 = Some cs -> fields p e1 = fields p e2.
+  interp H Z p e1 = Some cs -> interp H Z p e2 = Some cs -> fields p e1 = fields p e2.
 
 Lemma seq_inj : forall ps, Forall inj_p ps -> forall e1 e2 cs,
   forallb wf ps = true -> forallb has_arity ps = true ->
   forallb (fun q => dom q e1) ps = true -> forallb (fun q => dom q e2) ps = true ->
-  seq_opt (fun q => interp H q e1) ps = Some cs -> seq_opt (fun q => interp H q e2) ps = Some cs ->
+  seq_opt (fun q => interp H Z q e1) ps = Some cs -> seq_opt (fun q => interp H Z q e2) ps = Some cs ->
   flat_map (fun q => fields q e1) ps = flat_map (fun q => fields q e2) ps.
 Proof.
   induction 1 as [|q r IQ IR IH]; simpl; intros e1 e2 cs W A D1 D2 E1 E2; auto.
   apply andb_true_iff in W. destruct W as [W1 W2]. apply andb_true_iff in A. destruct A as [A1 A2].
   apply andb_true_iff in D1. destruct D1 as [D11 D12]. apply andb_true_iff in D2. destruct D2 as [D21 D22].
-  destruct (interp H q e1) as [a1|] eqn:I1; [|discriminate].
-  destruct (seq_opt (fun q0 => interp H q0 e1) r) as [b1|] eqn:S1; [|discriminate].
-  destruct (interp H q e2) as [a2|] eqn:I2; [|discriminate].
-  destruct (seq_opt (fun q0 => interp H q0 e2) r) as [b2|] eqn:S2; [|discriminate].
+  destruct (interp H Z q e1) as [a1|] eqn:I1; [|discriminate].
+  destruct (seq_opt (fun q0 => interp H Z q0 e1) r) as [b1|] eqn:S1; [|discriminate].
+  destruct (interp H Z q e2) as [a2|] eqn:I2; [|discriminate].
+  destruct (seq_opt (fun q0 => interp H Z q0 e2) r) as [b2|] eqn:S2; [|discriminate].
   inversion E1; inversion E2; subst. clear E1 E2.
   unfold has_arity in A1. destruct (arity q) as [k|] eqn:AQ; [|discriminate].
   apply app_inj_len in H2.
@@ -255,13 +256,13 @@ Qed.
 Lemma each_len : forall ps l cs,
   forallb has_arity ps = true ->
   forallb (fun v => forallb (fun q => dom q v) ps) l = true ->
-  seq_opt (fun v => seq_opt (fun q => interp H q v) ps) l = Some cs ->
+  seq_opt (fun v => seq_opt (fun q => interp H Z q v) ps) l = Some cs ->
   length cs = length l * arity_sum ps.
 Proof.
   induction l as [|v l IH]; simpl; intros cs A D E.
   - inversion E. reflexivity.
   - apply andb_true_iff in D. destruct D as [D1 D2].
-    destruct (seq_opt (fun q => interp H q v) ps) as [a|] eqn:E1; [|discriminate].
+    destruct (seq_opt (fun q => interp H Z q v) ps) as [a|] eqn:E1; [|discriminate].
     destruct (seq_opt _ l) as [b|] eqn:E2; [|discriminate].
     inversion E; subst. rewrite app_length. erewrite seq_len, IH; eauto.
 Qed.
@@ -271,17 +272,17 @@ Lemma each_inj : forall ps, Forall inj_p ps ->
   forall l1 l2 cs, length l1 = length l2 ->
   forallb (fun v => forallb (fun q => dom q v) ps) l1 = true ->
   forallb (fun v => forallb (fun q => dom q v) ps) l2 = true ->
-  seq_opt (fun v => seq_opt (fun q => interp H q v) ps) l1 = Some cs ->
-  seq_opt (fun v => seq_opt (fun q => interp H q v) ps) l2 = Some cs ->
+  seq_opt (fun v => seq_opt (fun q => interp H Z q v) ps) l1 = Some cs ->
+  seq_opt (fun v => seq_opt (fun q => interp H Z q v) ps) l2 = Some cs ->
   flat_map (fun v => flat_map (fun q => fields q v) ps) l1 =
   flat_map (fun v => flat_map (fun q => fields q v) ps) l2.
 Proof.
   intros ps IP W A. induction l1 as [|v1 l1 IH]; destruct l2 as [|v2 l2]; simpl; intros cs L D1 D2 E1 E2;
     try discriminate; auto.
   apply andb_true_iff in D1. destruct D1 as [D11 D12]. apply andb_true_iff in D2. destruct D2 as [D21 D22].
-  destruct (seq_opt (fun q => interp H q v1) ps) as [a1|] eqn:I1; [|discriminate].
+  destruct (seq_opt (fun q => interp H Z q v1) ps) as [a1|] eqn:I1; [|discriminate].
   destruct (seq_opt _ l1) as [b1|] eqn:S1; [|discriminate].
-  destruct (seq_opt (fun q => interp H q v2) ps) as [a2|] eqn:I2; [|discriminate].
+  destruct (seq_opt (fun q => interp H Z q v2) ps) as [a2|] eqn:I2; [|discriminate].
   destruct (seq_opt _ l2) as [b2|] eqn:S2; [|discriminate].
   inversion E1; inversion E2; subst. clear E1 E2.
   apply app_inj_len in H2.
@@ -314,7 +315,7 @@ Proof.
       destruct (evalb b e1) as [x|] eqn:EV1; [|discriminate].
       destruct (evalb b e2) as [y|] eqn:EV2; [|discriminate].
       apply Nat.eqb_eq in D1, D2. simpl. f_equal. f_equal.
-      eapply (put_bytes_inj H H_inj); [|exact E1|exact E2]. lia.
+      eapply (put_bytes_inj H Z H_inj); [|exact E1|exact E2]. lia.
   - (* PutBytesN *)
     simpl in W. apply Nat.ltb_lt in W.
     destruct (evalb b e1) as [x|]; [|discriminate]. destruct (evalb b e2) as [y|]; [|discriminate].
@@ -339,12 +340,12 @@ Proof.
     eapply put_u64_array_inj; [| |exact E1|exact E2]; rewrite map_length; assumption.
   - (* Merk *)
     simpl in W. apply andb_true_iff in W. destruct W as [W A]. simpl in D1, D2.
-    destruct (seq_opt (fun q => interp H q e1) ps) as [c1|] eqn:S1; [|discriminate].
-    destruct (seq_opt (fun q => interp H q e2) ps) as [c2|] eqn:S2; [|discriminate].
+    destruct (seq_opt (fun q => interp H Z q e1) ps) as [c1|] eqn:S1; [|discriminate].
+    destruct (seq_opt (fun q => interp H Z q e2) ps) as [c2|] eqn:S2; [|discriminate].
     apply opt1_inv in E1. destruct E1 as [r1 [E1 ->]]. apply opt1_inv in E2. destruct E2 as [r2 [E2 C]].
     inversion C; subst r2.
     assert (c1 = c2).
-    { eapply (merkleize_inj H H_inj); [|exact E1|exact E2].
+    { eapply (merkleize_inj H Z H_inj); [|exact E1|exact E2].
       rewrite (seq_len ps e1 c1), (seq_len ps e2 c2); auto. }
     subst c2. eapply seq_inj; eauto.
     eapply Forall_impl; [|exact H0]. intros q [Q _]. exact Q.
@@ -365,15 +366,15 @@ Proof.
     inversion C; subst r2.
     (* lengths first (from the mixed-in number), then the limits agree *)
     unfold mixin in E1, E2.
-    destruct (merkleize H c1 (limit_of l e1)) as [m1|] eqn:M1; [|discriminate].
-    destruct (merkleize H c2 (limit_of l e2)) as [m2|] eqn:M2; [|discriminate].
+    destruct (merkleize H Z c1 (limit_of l e1)) as [m1|] eqn:M1; [|discriminate].
+    destruct (merkleize H Z c2 (limit_of l e2)) as [m2|] eqn:M2; [|discriminate].
     inversion E1; inversion E2; subst. apply H_inj in H2. destruct H2 as [Hm Hn]. subst m2.
     apply u64chunk_inj in Hn. apply mod_small_eq in Hn; auto. apply Nat2N.inj in Hn.
     assert (LIM : limit_of l e2 = limit_of l e1).
     { destruct l; simpl in *; auto. apply path_eqb_eq in LO. subst f0. rewrite Hn. reflexivity. }
     rewrite LIM in M2.
     assert (c1 = c2).
-    { eapply (merkleize_inj H H_inj); [|exact M1|exact M2].
+    { eapply (merkleize_inj H Z H_inj); [|exact M1|exact M2].
       rewrite (each_len ps (as_list (get e1 f)) c1), (each_len ps (as_list (get e2 f)) c2); auto. }
     subst c2. simpl. rewrite !app_nil_r. rewrite Hn. f_equal.
     eapply each_inj; eauto.
@@ -388,11 +389,11 @@ Proof. intro p. exact (proj1 (interp_injective_strong p)). Qed.
 (* The statement in terms of the root (hh.HashRoot()). *)
 Theorem root_injective : forall p e1 e2 r,
   wf p = true -> dom p e1 = true -> dom p e2 = true ->
-  root H p e1 = Some r -> root H p e2 = Some r -> fields p e1 = fields p e2.
+  root H Z p e1 = Some r -> root H Z p e2 = Some r -> fields p e1 = fields p e2.
 Proof.
   unfold root. intros p e1 e2 r W D1 D2 R1 R2.
-  destruct (interp H p e1) as [[|c1 [|]]|] eqn:I1; try discriminate.
-  destruct (interp H p e2) as [[|c2 [|]]|] eqn:I2; try discriminate.
+  destruct (interp H Z p e1) as [[|c1 [|]]|] eqn:I1; try discriminate.
+  destruct (interp H Z p e2) as [[|c2 [|]]|] eqn:I2; try discriminate.
   inversion R1; inversion R2; subst.
   eapply interp_injective; eauto.
 Qed.
